@@ -25,8 +25,9 @@ class Case:
 class LoopSpec:
     """inv(c) -> {name: Bool}; c.cur = state at the loop head, c.entry = state at loop entry, c.v = locals (Values),
     c.done = set of processed keys (dict iteration), c.i = index (sequence iteration)."""
-    def __init__(self, inv, mod_vars=(), mod_state=(), kinds=None):
+    def __init__(self, inv, mod_vars=(), mod_state=(), kinds=None, on_exit=None):
         self.inv, self.mod_vars, self.mod_state, self.kinds = inv, list(mod_vars), list(mod_state), dict(kinds or {})
+        self.on_exit = on_exit      # ghost step at loop exit: may emit obligations and update ghost state
 
 
 class Contract:
@@ -365,11 +366,17 @@ def _verify_body(eng, contract, target, mod, cname, node, res, seed, timeout_ms,
     # ---- obligations generated while executing (callee preconditions, loop invariants)
     agg = {}
 
-    def add(name, hyps, goal, kind, tags=(), expect='proved'):
-        agg.setdefault(name, {'kind': kind, 'items': [], 'tags': tuple(tags), 'expect': expect})['items'].append((hyps, goal))
+    bundles = {}      # bundle key -> [(name, index in agg item list)]: obligations that share their hypotheses
+    bcount = [0]
+
+    def add(name, hyps, goal, kind, tags=(), expect='proved', bundle=None):
+        it = agg.setdefault(name, {'kind': kind, 'items': [], 'tags': tuple(tags), 'expect': expect})['items']
+        it.append((hyps, goal))
+        if bundle is not None and expect == 'proved':
+            bundles.setdefault(bundle, []).append((name, len(it) - 1))
 
     for ob in eng.obligs:
-        add('%s/%s' % (tname, ob.name), ob.hyps, ob.goal, ob.kind)
+        add('%s/%s' % (tname, ob.name), ob.hyps, ob.goal, ob.kind, bundle=('o', ob.info.get('bundle')) if ob.info.get('bundle') else None)
     # ---- totality of the cases
     guards = [(case.when(c0) if case.when else z3.BoolVal(True)) for case in contract.cases]
     add('%s/cases-total' % tname, list(ctx.pc[:len(ctx.pc)]) if False else req_terms + _param_facts(ctx), z3.Or(*guards), 'total')
@@ -431,9 +438,10 @@ def _verify_body(eng, contract, target, mod, cname, node, res, seed, timeout_ms,
             if len(alts) == 1:
                 case, g, clauses = alts[0]
                 hyps = hyps0 + [g]
+                bcount[0] += 1
                 for pn, pt in clauses.items():
-                    add('%s/%s.%s' % (tname, case.name, pn), hyps, pt, 'post', case.tags or ())
-                add('%s/%s.frame' % (tname, case.name), hyps, frame, 'frame', case.tags or ())
+                    add('%s/%s.%s' % (tname, case.name, pn), hyps, pt, 'post', case.tags or (), bundle=('p', bcount[0]))
+                add('%s/%s.frame' % (tname, case.name), hyps, frame, 'frame', case.tags or (), bundle=('p', bcount[0]))
                 add('%s/%s.reach' % (tname, case.name), hyps, z3.BoolVal(False), 'reach', expect='refuted-somewhere')
             else:
                 anyg = z3.Or(*[g for _, g, _ in alts])
@@ -451,16 +459,30 @@ def _verify_body(eng, contract, target, mod, cname, node, res, seed, timeout_ms,
                     for mn, mt in (contract.must_fail(cc) or {}).items():
                         if mn.startswith(case.name + ':'):
                             add('%s/canary.%s' % (tname, mn), hyps0 + [g], mt, 'canary', expect='refuted-somewhere')
-    # ---- discharge
+    # ---- discharge: obligations that share their hypotheses are first tried as one conjunction
+    pre_proved = set()
+    for bkey, members in bundles.items():
+        if len(members) < 2:
+            continue
+        hyps = agg[members[0][0]]['items'][members[0][1]][0]
+        goals = [agg[n]['items'][i][1] for n, i in members]
+        goals = [g for g in goals if not z3.is_true(g)]
+        if not goals:
+            continue
+        r = smt.prove(hyps, z3.And(*goals), timeout_ms=timeout_ms, seed=seed, quick_only=True)
+        if r['status'] == 'proved':
+            for n, i in members:
+                pre_proved.add((n, i))
     failed = 0
     for name, item in agg.items():
         t1 = time.time()
         statuses = []
         backend = set()
         model_txt = None
-        for hyps, goal in item['items']:
-            if z3.is_true(goal):
+        for idx_, (hyps, goal) in enumerate(item['items']):
+            if z3.is_true(goal) or (name, idx_) in pre_proved:
                 statuses.append('proved')
+                backend.add('z3')
                 continue
             if item['expect'] == 'refuted-somewhere' and 'refuted' in statuses:
                 break
